@@ -85,6 +85,9 @@ func exec(o *vrt.Obs, w *b2fx.PeerWorld) {
 	o.Count("frames_from_lib_judged", int64(len(res.Received)))
 	o.Count("peer_turns_holding_traffic_back", int64(res.HeldTurns))
 	o.Count("frames_to_lib_delivered", int64(len(res.Delivered)))
+	if res.HungUpBehindFQ {
+		o.Count("sessions_ended_by_FQ_and_hang-up_right_behind_the_last_frame", 1)
+	}
 	for _, n := range res.DataBlocks {
 		o.Count("data_blocks_from_lib", int64(n))
 	}
